@@ -151,6 +151,9 @@ func (x *Exec) contractEnv(st *State, fn *ssa.Function, args []Val, old *Heap, a
 	if fn.Pkg != nil {
 		ce.pkg = fn.Pkg.Pkg
 	}
+	if c := x.P.contracts[fn]; c != nil {
+		ce.home = c.Pkg
+	}
 	for i, p := range fn.Params {
 		if i < len(args) {
 			ce.vars[p.Name()] = args[i]
@@ -281,21 +284,30 @@ func (x *Exec) havocModifies(st *State, ce *CEnv, c *Contract, fname string) {
 
 func (x *Exec) havocLoc(st *State, ce *CEnv, e *CExpr) {
 	for _, hl := range x.resolveLoc(ce, e) {
+		if hl.fam == "log#n" {
+			old := st.heap.Get("log#n", 0, SInt).Select(nil)
+			hl.apply(st.heap)
+			x.assume(st, Ge(st.heap.Get("log#n", 0, SInt).Select(nil), old))
+			continue
+		}
 		hl.apply(st.heap)
 	}
 }
 
 // a havocable location: family + either one index tuple, a whole row (first index), or everything
 type hloc struct {
-	fam  string
-	sort Sort
-	ar   int
-	idx  []*Term // full index (len == ar) or row prefix (len == 1 < ar) or nil (whole family)
+	fam        string
+	sort       Sort
+	ar         int
+	idx        []*Term // full index (len == ar) or row prefix (len == 1 < ar) or nil (whole family)
+	appendFrom *Term   // log families: only entries at positions >= appendFrom may change
 }
 
 func (l hloc) apply(h *Heap) {
 	f := h.Get(l.fam, l.ar, l.sort)
 	switch {
+	case l.appendFrom != nil:
+		h.Set(l.fam, f.Overlay(freshBase(l.fam+"!app", l.ar, l.sort), l.appendFrom))
 	case l.idx == nil:
 		h.Set(l.fam, freshBase(l.fam+"!hv", l.ar, l.sort))
 	case len(l.idx) == l.ar:
@@ -314,12 +326,12 @@ func (x *Exec) resolveLoc(ce *CEnv, e *CExpr) []hloc {
 		var fs []famRef
 		placeFamilies(p.Prefix, t, &fs)
 		for _, f := range fs {
-			out = append(out, hloc{f.name, f.sort, len(p.Idx), p.Idx})
+			out = append(out, hloc{fam: f.name, sort: f.sort, ar: len(p.Idx), idx: p.Idx})
 		}
 	}
 	switch {
 	case e.Op == "ident" && e.Name == "log":
-		out = append(out, hloc{"log#n", SInt, 0, []*Term{}})
+		out = append(out, hloc{fam: "log#n", sort: SInt, ar: 0, idx: []*Term{}})
 		var names []string
 		for n := range famReg {
 			if strings.HasPrefix(n, "log#") && n != "log#n" {
@@ -327,8 +339,9 @@ func (x *Exec) resolveLoc(ce *CEnv, e *CExpr) []hloc {
 			}
 		}
 		sort.Strings(names)
+		n0 := ce.heap.Get("log#n", 0, SInt).Select(nil)
 		for _, n := range names {
-			out = append(out, hloc{n, famReg[n].sort, famReg[n].arity, nil})
+			out = append(out, hloc{fam: n, sort: famReg[n].sort, ar: famReg[n].arity, appendFrom: n0})
 		}
 		return out
 	case e.Op == "call" && e.Args[0].Op == "ident" && e.Args[0].Name == "forall":
@@ -351,10 +364,10 @@ func (x *Exec) resolveLoc(ce *CEnv, e *CExpr) []hloc {
 			// family not yet used: nothing to havoc (it will be created unconstrained)
 			return nil
 		}
-		return []hloc{{e.Args[1].Str, fi.sort, fi.arity, nil}}
+		return []hloc{{fam: e.Args[1].Str, sort: fi.sort, ar: fi.arity}}
 	case e.Op == "call" && e.Args[0].Op == "ident" && e.Args[0].Name == "held":
 		pl := ce.lvaluePlace(e.Args[1])
-		return []hloc{{pl.Prefix + "#held", SBool, len(pl.Idx), pl.Idx}}
+		return []hloc{{fam: pl.Prefix + "#held", sort: SBool, ar: len(pl.Idx), idx: pl.Idx}}
 	case e.Op == "index" && e.Args[1].Op == "ident" && e.Args[1].Name == "all":
 		// x.f[all]: every entry of the map / every element of the slice
 		c := ce.eval(e.Args[0])
@@ -362,12 +375,12 @@ func (x *Exec) resolveLoc(ce *CEnv, e *CExpr) []hloc {
 		case VMap:
 			pre := mapKeyPrefix(c.Typ)
 			_, vt := mapTypes(c.Typ)
-			out = append(out, hloc{pre + "#dom", SBool, 2, []*Term{c.T}})
-			out = append(out, hloc{pre + "#len", SInt, 1, []*Term{c.T}})
+			out = append(out, hloc{fam: pre + "#dom", sort: SBool, ar: 2, idx: []*Term{c.T}})
+			out = append(out, hloc{fam: pre + "#len", sort: SInt, ar: 1, idx: []*Term{c.T}})
 			var fs []famRef
 			placeFamilies(pre+"#val", vt, &fs)
 			for _, f := range fs {
-				out = append(out, hloc{f.name, f.sort, 2, []*Term{c.T}})
+				out = append(out, hloc{fam: f.name, sort: f.sort, ar: 2, idx: []*Term{c.T}})
 			}
 			return out
 		case VSlice:
@@ -375,7 +388,7 @@ func (x *Exec) resolveLoc(ce *CEnv, e *CExpr) []hloc {
 			var fs []famRef
 			placeFamilies("elem."+typeKey(et), et, &fs)
 			for _, f := range fs {
-				out = append(out, hloc{f.name, f.sort, 2, []*Term{c.Arr}})
+				out = append(out, hloc{fam: f.name, sort: f.sort, ar: 2, idx: []*Term{c.Arr}})
 			}
 			return out
 		}
@@ -389,9 +402,9 @@ func (x *Exec) resolveLoc(ce *CEnv, e *CExpr) []hloc {
 			t Sort
 		}{{"#smdom", SBool}, {"#smtag", SInt}, {"#smref", SInt}} {
 			if len(p.Idx) == 1 {
-				out = append(out, hloc{p.Prefix + sfx.s, sfx.t, 2, p.Idx})
+				out = append(out, hloc{fam: p.Prefix + sfx.s, sort: sfx.t, ar: 2, idx: p.Idx})
 			} else {
-				out = append(out, hloc{p.Prefix + sfx.s, sfx.t, len(p.Idx) + 1, nil})
+				out = append(out, hloc{fam: p.Prefix + sfx.s, sort: sfx.t, ar: len(p.Idx) + 1})
 			}
 		}
 		return out
